@@ -18,6 +18,7 @@ pub type GL = GList<u32>;
 impl Sut for GL {
     type Op = glist::Op<u32>;
     const NAME: &'static str = "GL";
+    const WIDE_PREFIX: usize = 70;
     const WEAKEST: Delivery = Delivery::Any;
     fn new() -> Self {
         GList::new()
@@ -125,6 +126,7 @@ pub type LI = List<u32, A>;
 impl Sut for LI {
     type Op = list::Op<u32, A>;
     const NAME: &'static str = "LI";
+    const WIDE_PREFIX: usize = 70;
     const WEAKEST: Delivery = Delivery::Causal;
     const HAS_MERGE: bool = false;
     fn new() -> Self {
@@ -315,6 +317,7 @@ fn hx(h: &[u8; 32]) -> Dump {
 impl Sut for MK {
     type Op = Node<String>;
     const NAME: &'static str = "MK";
+    const WIDE_PREFIX: usize = 30;
     const WEAKEST: Delivery = Delivery::Any;
     fn new() -> Self {
         MerkleReg::new()
